@@ -24,6 +24,15 @@ void vh_fill_profile(mzd_t *M, int style) {
     break;
   }
   case 4: vh_fill_kind(M, 2); break;
+  case 8: { /* rank-deficient left half, pivots continuing in the right half (r1 < n1, r2 > 0) */
+    int c = 0, r1 = vh_randint(0, 20);
+    for (int t = 0; t < r1 && c < n / 2 && r < maxr; t++) { piv[r++] = c; c += vh_randint(1, 9); }
+    c = n / 2 + vh_randint(0, 70);
+    int r2 = vh_randint(1, 40);
+    for (int t = 0; t < r2 && c < n && r < maxr; t++) { piv[r++] = c; c += vh_randint(1, 5); }
+    vh_fill_rankprofile(M, piv, r, 1);
+    break;
+  }
   case 5: vh_fill_identity(M); break;
   case 6: vh_fill_sparse(M, vh_randint(1, 3)); break;
   case 7: { /* full column rank / last pivots at the right edge */
@@ -90,6 +99,41 @@ static void elim_case(const vh_args_t *a, int op) {
   vh_free_all();
 }
 
+/* sweep: a block of exactly kbar consecutive pivot columns (1 <= kbar <= 6k) followed by a pivot gap, placed
+ * after `lead` leading pivots, for every table parameter k: every table count 1..6 of the M4RI block loop
+ * and of the top reduction, with kbar == kk as well as kbar < kk */
+static void elim_sweep_case(int k, int kbar, int which) {
+  int lead = vh_pick((int[]){0, 3, 64}, 3), gap = vh_pick((int[]){1, 2, 64}, 3), tail = vh_randint(0, 20);
+  int r = lead + kbar + tail;
+  int n = lead + kbar + gap + tail + vh_randint(0, 30), m = r + vh_randint(0, 12);
+  mzd_t *A = vh_mk(m, n, -1);
+  int *piv = (int *)vh_xmalloc(sizeof(int) * (r + 1));
+  int t = 0;
+  for (int i = 0; i < lead + kbar; i++) piv[t++] = i;
+  for (int i = 0; i < tail; i++) piv[t++] = lead + kbar + gap + i;
+  vh_fill_rankprofile(A, piv, r, vh_randint(0, 2) ? 1 : 0);
+  vh_xfree(piv);
+  vh_ev_t e;
+  int full = (which == 1);
+  vh_begin(&e, "echelonize_m4ri");
+  vh_pi(&e, "full", full); vh_pi(&e, "k", k); vh_pi(&e, "heur", 0); vh_pi(&e, "thr", 0); vh_pi(&e, "sweep_kbar", kbar);
+  vh_opnd(&e, "A", 'b', A);
+  vh_pre(&e);
+  if (VH_CALL(&e)) e.ret = mzd_echelonize_m4ri(A, full, k);
+  VH_END(&e);
+  vh_post(&e);
+  if (which == 2 && !e.die) {
+    vh_begin(&e, "top_echelonize_m4ri");
+    vh_pi(&e, "k", k);
+    vh_opnd(&e, "A", 'b', A);
+    vh_pre(&e);
+    if (VH_CALL(&e)) mzd_top_echelonize_m4ri(A, k);
+    VH_END(&e);
+    vh_post(&e);
+  }
+  vh_free_all();
+}
+
 int fam_elim(const vh_args_t *a) {
   int ncases = a->cases ? a->cases : (a->tier ? 4000 : 700);
   for (long idx = 0; idx < ncases; idx++) {
@@ -99,6 +143,19 @@ int fam_elim(const vh_args_t *a) {
     elim_case(a, (int)(idx % E_NOPS));
     VH_CASE_END
   }
+  if (strstr(a->extra, "nosweep")) return 0;
+  /* deterministic sweep over (k, kbar, entry point); quick: a third of it, rotating with the seed */
+  long sidx = ncases;
+  for (int k = 1; k <= 8; k++)
+    for (int kbar = 1; kbar <= 6 * k; kbar++)
+      for (int which = 0; which < 3; which++, sidx++) {
+        if (!a->tier && (int)((kbar + k + which + a->seed) % 3) != 0) continue;
+        if (!VH_SHARD(a, sidx)) continue;
+        vh_case_seed(a, sidx);
+        VH_CASE(sidx)
+        elim_sweep_case(k, kbar, which);
+        VH_CASE_END
+      }
   return 0;
 }
 
@@ -116,14 +173,14 @@ static void ple_case(const vh_args_t *a, int op, int big) {
   if (big) {
     /* shapes that enter the block-recursive algorithm in the small-cache configuration:
        ncols > 64 and width*nrows > __M4RI_PLE_CUTOFF */
-    static const int bm[] = {70, 4200, 130, 600, 200, 1030, 560};
-    static const int bn[] = {8200, 70, 4200, 900, 2800, 500, 960};
-    int t = a->tier ? vh_randint(0, 6) : big - 1;
+    static const int bm[] = {70, 4200, 130, 140, 2100, 600, 200, 1030, 560};
+    static const int bn[] = {8200, 70, 4200, 3900, 260, 900, 2800, 500, 960};
+    int t = a->tier ? vh_randint(0, 8) : (big - 1) % 5;
     m = bm[t]; n = bn[t];
     if (a->maxdim && (m > a->maxdim || n > a->maxdim)) { m = a->maxdim; n = a->maxdim; }
   } else if (a->tier == 0 && (long)m * n > 260L * 200) { if (m > n) m = m / 2 + 1; else n = n / 2 + 1; }
   mzd_t *A = vh_mk(m, n, -1);
-  vh_fill_profile(A, big ? vh_pick((int[]){0, 1, 2, 3}, 4) : pick_style());
+  vh_fill_profile(A, big ? vh_pick((int[]){0, 1, 1, 2, 3, 3, 8}, 7) : pick_style());
   mzp_t *P = mzp_init(m), *Q = mzp_init(n);
   junk_perm(P); junk_perm(Q);
   static const int cuts[] = {0, 0, 64, 128, 512};
@@ -159,13 +216,13 @@ static void ple_case(const vh_args_t *a, int op, int big) {
 
 int fam_ple(const vh_args_t *a) {
   int ncases = a->cases ? a->cases : (a->tier ? 4000 : 640);
-  int nbig = a->tier ? 48 : 3;
+  int nbig = a->tier ? 64 : 10;
   if (strstr(a->extra, "nobig")) nbig = 0;
   for (long idx = 0; idx < ncases + nbig; idx++) {
     if (!VH_SHARD(a, idx)) continue;
     vh_case_seed(a, idx);
     VH_CASE(idx)
-    if (idx >= ncases) ple_case(a, (int)(idx % 4), 1 + (int)((idx - ncases) % 3));
+    if (idx >= ncases) ple_case(a, (int)(idx % 4), 1 + (int)((idx - ncases) % 5));
     else ple_case(a, (int)(idx % P_NOPS), 0);
     VH_CASE_END
   }
